@@ -24,6 +24,7 @@ def run(rep):
     rep.guard(s8, rep, w, 'C06')
     rep.guard(s9, rep, w, 'C06')
     rep.guard(s10, rep, w, 'C06')
+    rep.guard(s11, rep, w, 'C06')
     import cache
     rep.guard(cache.cc1, rep, w, 'C06')     # a remembered global / attribute look-up must not outlive a write to the table it came from
     import c08
@@ -610,3 +611,71 @@ def s10(rep, w, prop='C06'):
                     'passing it through the scanner: a module file called super / self shadows the compiler\'s hidden variable of that name' % f.path, f.loc(t.get('sp')))
     if n < 1:
         raise Broken(prop, 'floor', 'no data-named declaration found (import_statement names the module variable after the file)')
+
+
+CERR = 'yarel::compiler::CompilerError'
+
+
+def s11(rep, w, prop='C06'):
+    """name resolution reports *why* it failed: LocalNotFound means "look further out", ReadVarInInitialiser means "the innermost
+    declaration of this name is the variable being initialised" - and then the name must not be looked up further out. A call site
+    that only asks `if let Ok(..)` cannot tell the two apart: `{ var g = || g; }` resolved g past the new variable *and* past an
+    outer block's g of the same function to a global (fix 1404413). So every call in the compiler whose callee returns
+    Result<_, CompilerError> looks at the error: propagates it, hands it to compiler_error, or inspects its variant."""
+    r = rep.rule('S11', 'no CompilerError is dropped unseen: every result of a resolution / emission helper has its error inspected, reported or propagated', floor=8)
+    c = w.yarel
+    n = 0
+    for f in sorted(c.fns.values(), key=lambda x: x.path):
+        if not f.file.endswith('compiler.rs'):
+            continue
+        for bi, t in f.calls():
+            name = callee_name(t) or ''
+            g = w.fns.get(name)
+            if g is None or g.crate is not c:
+                continue
+            rt = c.tstr(g.local_ty(0))
+            if not (rt.startswith('std::result::Result<') and rt.rstrip('>').endswith('compiler::CompilerError')):
+                continue
+            n += 1
+            dst = (t.get('dst') or {}).get('l')
+            if dst is None:
+                continue
+            # locals the result is moved / copied into as a whole
+            alias = {dst}
+            grew = True
+            while grew:
+                grew = False
+                for b in f.blocks:
+                    for s_ in b['s']:
+                        rr = s_.get('r') or {}
+                        d = s_.get('d') or {}
+                        if rr.get('rv') == 'use' and not d.get('p'):
+                            pl = op_place(rr.get('o') or {})
+                            if pl is not None and pl['l'] in alias and not pl.get('p') and d.get('l') not in alias:
+                                alias.add(d['l'])
+                                grew = True
+            seen = False
+
+            def err_proj(pl):
+                return pl is not None and pl.get('l') in alias and any(isinstance(x, dict) and x.get('v') == 'Err' for x in pl.get('p') or ())
+            for b in f.blocks:
+                for s_ in b['s']:
+                    rr = s_.get('r') or {}
+                    cands = [rr.get('p')] + [op_place(rr.get(k) or {}) for k in ('o', 'a', 'b')] + [op_place(o) for o in rr.get('ops', [])]
+                    if any(err_proj(pl) for pl in cands if pl):
+                        seen = True
+                tt = b['t']
+                if tt['t'] == 'call':
+                    for a in tt['args']:
+                        pl = op_place(a)
+                        if pl is not None and (err_proj(pl) or (pl['l'] in alias and not pl.get('p') and a is not None and callee_name(tt) != name)):
+                            seen = True       # the error, or the whole result, goes to another function (?, map_err, unwrap_or_else, ...)
+                if tt['t'] == 'return' and 0 in alias:
+                    seen = True
+            if 0 in alias:
+                seen = True
+            r.check(seen, '%s <- %s' % (f.path.replace('yarel::compiler::', ''), name.replace('yarel::compiler::', '')),
+                    '%s takes the Ok value of %s and never looks at the error: "declared here but not initialised yet" (ReadVarInInitialiser) and "too many" errors are '
+                    'treated like "not found", so the name is silently resolved further out / the limit is not reported' % (f.path, name), f.loc(t.get('sp')))
+    if n < 8:
+        raise Broken(prop, 'floor', 'call sites of CompilerError-returning helpers in compiler.rs: %d' % n)
